@@ -164,6 +164,20 @@ func CancelCtx(name string) context.Context {
 	return ctx
 }
 
+// CancelCtxAt returns a context cancelled from instant `at` on (math.MaxInt64 = never); natively:
+// cancelled immediately iff at <= 0.
+func CancelCtxAt(at int64) context.Context {
+	ctx, cancel := context.WithCancel(context.Background())
+	if at <= 0 {
+		cancel()
+	}
+	_ = cancel
+	return ctx
+}
+
+// TimeAt returns the instant with the given unix nanoseconds.
+func TimeAt(n int64) time.Time { return time.Unix(0, n) }
+
 // Offer tells the sequential executor that another party is ready on channel ch (a parked
 // receiver for sends, a sender of v for receives) under condition ready.  No native effect.
 func Offer(ch interface{}, ready bool, v interface{}) {}
